@@ -14,6 +14,7 @@ import tempfile
 VERIF = os.path.abspath(os.path.join(os.path.dirname(__file__), '..'))
 args = [a for a in sys.argv[1:] if not a.startswith('--')]
 kani = '--kani' in sys.argv
+thorough = '--thorough' in sys.argv
 also = [a[7:] for a in sys.argv if a.startswith('--also=')]
 seeds = sorted(glob.glob(os.path.join(VERIF, 'seeded', '*', 'patch.diff')))
 ROOT = '/tmp/verif-scratch-seed'
@@ -38,10 +39,12 @@ for pd in seeds:
             cmd = [os.path.join(VERIF, 'check'), prop, '--repo', tmp, '--evidence-dir', os.path.join(tmp, 'ev')]
             if not kani:
                 cmd.append('--no-kani')
+            if thorough:
+                cmd += ['--tier', 'thorough', '--no-selftest']
             p = subprocess.run(cmd, capture_output=True, text=True, cwd=VERIF,
                                env=dict(os.environ, VERIF_SCRATCH=os.path.join(tmp, 'scratch')))
             obs = re.findall(r'^FAILED-OBLIGATION: (\S+)', p.stdout, re.M)
-            res[prop + ('+kani' if kani else '')] = {'exit': p.returncode, 'failed_obligations': obs,
+            res[prop + ('+kani' if kani else '') + ('+thorough' if thorough else '')] = {'exit': p.returncode, 'failed_obligations': obs,
                                                      'last': p.stdout.strip().split('\n')[-1][:300]}
             print(sid, prop, 'exit', p.returncode, obs[:3], flush=True)
         if not isinstance(meta.get('detected_by'), dict):
